@@ -416,7 +416,7 @@ def exhaustive(chk, nmax, nvals, tmp):
 # ----------------------------------------------------------------------------
 # brew level
 # ----------------------------------------------------------------------------
-def recorder_class():
+def recorder_class(both=False):
     from sklearn.base import BaseEstimator
 
     class Recorder(BaseEstimator):
@@ -447,7 +447,15 @@ def recorder_class():
                 return np.array([self.table[i] for i in ids], dtype=float)
             return self.a_ * X[:, 0] + self.b_
 
-    return Recorder
+    class RecorderBoth(Recorder):
+        """also exposes predict_proba (like LogisticRegression): the decision function is still what
+        mokapot must use and calibrate; the probabilities are deliberately unrelated to it"""
+
+        def predict_proba(self, X):
+            p = 1.0 / (1.0 + np.exp(np.asarray(X[:, 0], dtype=float) % 3 - 1))
+            return np.column_stack([1 - p, p])
+
+    return RecorderBoth if both else Recorder
 
 
 def gen_brew_case(rng, small=False):
@@ -505,6 +513,7 @@ def gen_brew_case(rng, small=False):
     chunk = rng.choice([700000, 700000, n_all, max(1, n_all // 2), max(1, n_all // 3), 7, 5])
     return dict(k=k, mode=mode, colls=colls, thr=thr,
                 chunk=chunk, workers=rng.choice([1, 1, 1, 2]), seed=rng.randrange(10 ** 6),
+                both=rng.random() < 0.3,
                 train_fdr=rng.choice([0.5, 1.0]))
 
 
@@ -525,7 +534,7 @@ def run_brew(bc, tmp):
     from mokapot.model import Model
 
     brewmod = importlib.import_module("mokapot.brew")
-    Recorder = recorder_class()
+    Recorder = recorder_class(bc.get("both", False))
     k = bc["k"]
     dss, frames = [], []
     for cl in bc["colls"]:
@@ -665,6 +674,7 @@ def eval_brew(chk, bcs, tmp):
         chk.count("b.collections", len(bc["colls"]))
         chk.count("b.chunked", bc["chunk"] < min(c["n"] for c in bc["colls"]))
         chk.count("b.workers", bc["workers"])
+        chk.count("b.estimator", "decision_function+predict_proba" if bc.get("both") else "decision_function")
         chk.count("b.thr", str(bc["thr"]))
         if res["status"] == "split-raises":
             # `_split` itself fails (too few distinct spectra for the number of folds): C02's domain
